@@ -56,6 +56,13 @@ fn main() {
             });
             e3c::run(seed, shard, nshards, a.u64("cases", if thorough { 12 } else { 1 }), a.u64("max_faults", if thorough { 400 } else { 60 }) as usize, a.u64("parallel", 4) as usize, only, &mut rep);
         }
+        "e3o" => {
+            let only = replay.as_ref().map(|r| {
+                let o = &r["fault"]["outage"];
+                (r["case"].as_u64().unwrap(), e3o::Fault { rpc: o[0].as_u64().unwrap(), polls_down: o[1].as_u64().unwrap() as u32 })
+            });
+            e3o::run(seed, shard, nshards, a.u64("cases", if thorough { 12 } else { 1 }), a.u64("max_faults", if thorough { 60 } else { 12 }) as usize, a.u64("parallel", 4) as usize, only, &mut rep);
+        }
         "e1c" => {
             let only = replay.as_ref().map(|r| {
                 let f = &r["fault"];
